@@ -213,7 +213,9 @@ func sharedState(dir, root string) (names []string, found bool, err error) {
 				}
 			})
 		}
-		if depth >= 2 {
+		// (helpers are followed five levels deep — NewNegotiator → negotiator → negotiateFeatures →
+		// readStreamFeatures / writeStreamFeatures → their helpers; `seen` keeps the walk finite)
+		if depth >= 5 {
 			return
 		}
 		ast.Inspect(fd.Body, func(n ast.Node) bool {
